@@ -57,6 +57,8 @@ func menu() []reload {
 		{Name: "C", Cfg: C, OK: true},
 		{Name: "L", Cfg: L, OK: true},
 		{Name: "two", Cfg: two([]srv.Key{kA}, []srv.Key{kC}), OK: true},
+		// two keys with one secret under different ciphers (both must authenticate afterwards)
+		{Name: "D", Cfg: srv.Cfg{Services: []srv.Svc{svc([]srv.Key{kB, {ID: "d", Cipher: "aes-192-gcm", Secret: "s-b"}}, tcp("127.0.0.1:9000"), udp("127.0.0.1:9000"))}}, OK: true},
 		{Name: "missing", Cfg: srv.Cfg{Missing: true}},
 		{Name: "malformed", Cfg: srv.Cfg{Raw: "services:\n  - listeners: [\n"}},
 		{Name: "bad-type", Cfg: srv.Cfg{Services: []srv.Svc{svc([]srv.Key{kA}, srv.Ln{Type: "quic", Addr: "127.0.0.1:9000"})}}},
@@ -64,6 +66,8 @@ func menu() []reload {
 		{Name: "dup-listener", Cfg: srv.Cfg{Services: []srv.Svc{svc([]srv.Key{kA}, tcp("127.0.0.1:9007")), svc([]srv.Key{kB}, tcp("127.0.0.1:9007"))}}},
 		{Name: "bad-cipher-0", Cfg: two([]srv.Key{kA, kBad}, []srv.Key{kC})},
 		{Name: "bad-cipher-1", Cfg: two([]srv.Key{kA}, []srv.Key{kBad})},
+		// an unsupported cipher on a key that repeats the secret of an earlier, valid key
+		{Name: "bad-cipher-same-secret", Cfg: two([]srv.Key{kA, {ID: "bad2", Cipher: "rc4-md5", Secret: kA.Secret}}, []srv.Key{kC})},
 		{Name: "bad-cipher-nolisten", Cfg: srv.Cfg{Services: []srv.Svc{svc([]srv.Key{kA}, tcp("127.0.0.1:9000")), {Keys: []srv.Key{kBad}}}}},
 		{Name: "bad-cipher-legacy", Cfg: srv.Cfg{Services: []srv.Svc{svc([]srv.Key{kC}, tcp("127.0.0.1:9004"))}, Legacy: []srv.Legacy{{Key: kBad, Port: 9005}}}},
 		{Name: "busy-0", Cfg: two([]srv.Key{kA}, []srv.Key{kC}), Busy: []string{"tcp/127.0.0.1:9000"}},
